@@ -320,7 +320,7 @@ def compositions(data, limit=None):
 def gen_lib_exhaustive(F, tier):
     """every split of short streams; every 2- and 3-split of a few longer ones"""
     cases = []
-    full = [PROMPT, b"\r\n" + PROMPT] if tier == "quick" else [PROMPT, b"\r\n" + PROMPT, b"1\r\n" + PROMPT, b"1 \r\n" + PROMPT, b"powerman>"]
+    full = [PROMPT, b"\r\n" + PROMPT, b"1\r\n" + PROMPT] if tier == "quick" else [PROMPT, b"\r\n" + PROMPT, b"1\r\n" + PROMPT, b"1 \r\n" + PROMPT, b"powerman>"]
     for s in full:
         for c in compositions(s):
             cases.append(dict(kind="lib", ops=[("r",)], chunks=c, tag="exhaustive"))
@@ -408,15 +408,17 @@ def gen_cli_fixed(F):
     return cases
 
 
-def generate(ctx, F):
+def generate(ctx, F, scale=1, fixed=True):
     rng, tier = ctx.rng, ctx.tier
-    n = dict(quick=dict(session=900, recv=900, arb=500, big=14, cli=260), thorough=dict(session=40000, recv=40000, arb=20000, big=160, cli=4000))[tier]
-    cases = gen_lib_exhaustive(F, tier)
+    n = dict(quick=dict(session=4000, recv=4000, arb=2500, big=30, cli=900), thorough=dict(session=60000, recv=60000, arb=40000, big=240, cli=8000))[tier]
+    if scale != 1:
+        n = dict((k, int(v * scale)) for k, v in n.items())
+    cases = gen_lib_exhaustive(F, tier) if fixed else []
     cases += [gen_lib_session(rng, F) for _ in range(n["session"])]
     cases += [gen_lib_recv(rng, F) for _ in range(n["recv"])]
     cases += [gen_lib_arbitrary(rng, F) for _ in range(n["arb"])]
     cases += [gen_lib_big(rng, F) for _ in range(n["big"])]
-    cases += gen_cli_fixed(F)
+    cases += gen_cli_fixed(F) if fixed else []
     cases += [gen_cli(rng, F) for _ in range(n["cli"])]
     return cases
 
@@ -831,58 +833,70 @@ def run(ctx, V):
               "scripted replies with every code of the protocol and codes outside it, random + boundary-biased segmentations, damaged / truncated / "
               "prompt-less / arbitrary streams, payloads around CP_LINEMAX; every split of short streams; CLI sessions (flags -q -l -1 -T -x ...) "
               "against a scripted loopback server.  non-trivial = at least one call consumed server bytes")
+    viol, disagree = {}, []
+    rounds = [0]
+
+    def evaluate(cases, record=True):
+        rd = rounds[0]; rounds[0] += 1
+        libs = [(i, c) for i, c in enumerate(cases) if c["kind"] == "lib"]
+        clis = [(i, c) for i, c in enumerate(cases) if c["kind"] == "cli"]
+        t0 = time.time()
+        lib_lines = [("L%d" % i, lib_line("L%d" % i, c)) for i, c in libs]
+        cli_lines = [("C%d" % i, cli_line("C%d" % i, c)) for i, c in clis]
+        res_model = {}
+        tm = threading.Thread(target=lambda: res_model.update(run_parallel(run_model_slice, model, lib_lines + cli_lines, 8)))
+        tm.start()
+        res_impl = run_parallel(run_impl_slice, impl, lib_lines, 8)
+        res_cli = cli_drv.run_cases(powerman, [dict(id="C%d" % i, flags=c["flags"], stream=c["stream"], cuts=c.get("cuts", [])) for i, c in clis], workers=16, timeout=6.0)
+        tm.join()
+        ctx.log("round %d: ran %d library cases and %d CLI cases on both sides in %.1fs" % (rd, len(libs), len(clis), time.time() - t0))
+        if rd == 0:
+            V.extra["cases_per_second"] = round(len(cases) / max(0.001, time.time() - t0), 1)
+        for i, c in libs:
+            cid = "L%d" % i
+            a, b = res_impl.get(cid), res_model.get(cid)
+            if isinstance(a, tuple) and a[0] == "SKIPPED":
+                continue
+            ia = a if isinstance(a, tuple) else parse_lib_result(a or "")[0]
+            nontriv = (not isinstance(ia, tuple)) and any(r["consumed"] > 0 for r in ia)
+            V.case(lib_line("", c), nontrivial=nontriv or isinstance(ia, tuple))
+            V.count("kind:" + c["tag"].split(":")[0])
+            if not isinstance(ia, tuple):
+                for r in ia:
+                    V.count("rc:%d" % r["rc"])
+            if c["tag"] in ("session", "recv", "big"):
+                V.sample(lib_line("", c)[:300])
+            bad = monitor_lib(c, ia, F)
+            if bad:
+                for clause, site, detail in bad:
+                    viol.setdefault((clause, site), (c, detail))
+            elif not lib_agree(a, b):
+                disagree.append((c, "implementation: %s\nmodel:          %s" % (str(a)[:600], str(b)[:600])))
+        for (i, c), r in zip(clis, res_cli):
+            cid = "C%d" % i
+            b = res_model.get(cid)
+            V.case(cli_line("", c), nontrivial=len(r["out"]) + len(r["err"]) > 0)
+            V.count("kind:" + c["tag"].split(":")[0]); V.count("cli-exit:%s" % r["rc"])
+            if c["tag"] == "cli-session":
+                V.sample(("powerman %s <- %r" % (" ".join(c["flags"]), c["stream"][:160])))
+            bad = monitor_cli(c, r, F)
+            if bad:
+                for clause, site, detail in bad:
+                    viol.setdefault((clause, site), (c, detail))
+            else:
+                ok, why = cli_agree(r, b, F)
+                if not ok:
+                    disagree.append((c, "R-CLI: %s\nmodel: %s" % (why, str(b)[:400])))
+
     cases = load_corpus() + generate(ctx, F)
     ctx.log("cases: %d" % len(cases))
-    libs = [(i, c) for i, c in enumerate(cases) if c["kind"] == "lib"]
-    clis = [(i, c) for i, c in enumerate(cases) if c["kind"] == "cli"]
-    t0 = time.time()
-    lib_lines = [("L%d" % i, lib_line("L%d" % i, c)) for i, c in libs]
-    cli_lines = [("C%d" % i, cli_line("C%d" % i, c)) for i, c in clis]
-    res_model = {}
-    tm = threading.Thread(target=lambda: res_model.update(run_parallel(run_model_slice, model, lib_lines + cli_lines, 8)))
-    tm.start()
-    res_impl = run_parallel(run_impl_slice, impl, lib_lines, 8)
-    res_cli = cli_drv.run_cases(powerman, [dict(id="C%d" % i, flags=c["flags"], stream=c["stream"], cuts=c.get("cuts", [])) for i, c in clis], workers=16, timeout=6.0)
-    tm.join()
-    ctx.log("ran %d library cases and %d CLI cases on both sides in %.1fs" % (len(libs), len(clis), time.time() - t0))
-    V.extra["cases_per_second"] = round(len(cases) / max(0.001, time.time() - t0), 1)
-
-    viol, disagree = {}, []
-    for i, c in libs:
-        cid = "L%d" % i
-        a, b = res_impl.get(cid), res_model.get(cid)
-        if isinstance(a, tuple) and a[0] == "SKIPPED":
-            continue
-        ia = a if isinstance(a, tuple) else parse_lib_result(a or "")[0]
-        nontriv = (not isinstance(ia, tuple)) and any(r["consumed"] > 0 for r in ia)
-        V.case(lib_line("", c), nontrivial=nontriv or isinstance(ia, tuple))
-        V.count("kind:" + c["tag"].split(":")[0])
-        if not isinstance(ia, tuple):
-            for r in ia:
-                V.count("rc:%d" % r["rc"])
-        if c["tag"] in ("session", "recv", "big"):
-            V.sample(lib_line("", c)[:300])
-        bad = monitor_lib(c, ia, F)
-        if bad:
-            for clause, site, detail in bad:
-                viol.setdefault((clause, site), (c, detail))
-        elif not lib_agree(a, b):
-            disagree.append((c, "implementation: %s\nmodel:          %s" % (str(a)[:600], str(b)[:600])))
-    for (i, c), r in zip(clis, res_cli):
-        cid = "C%d" % i
-        b = res_model.get(cid)
-        V.case(cli_line("", c), nontrivial=len(r["out"]) + len(r["err"]) > 0)
-        V.count("kind:" + c["tag"].split(":")[0]); V.count("cli-exit:%s" % r["rc"])
-        if c["tag"] == "cli-session":
-            V.sample(("powerman %s <- %r" % (" ".join(c["flags"]), c["stream"][:160])))
-        bad = monitor_cli(c, r, F)
-        if bad:
-            for clause, site, detail in bad:
-                viol.setdefault((clause, site), (c, detail))
-        else:
-            ok, why = cli_agree(r, b, F)
-            if not ok:
-                disagree.append((c, "R-CLI: %s\nmodel: %s" % (why, str(b)[:400])))
+    evaluate(cases)
+    if (disagree or not proofs_ok) and not viol:
+        # a proof or the correspondence no longer checks but the property was not seen to fail: search harder
+        # (DESIGN 2.3 step 4: enlarged budget of freshly generated cases, same generator, continuing the PRNG)
+        ctx.log("search: proof/correspondence broken without a failing input so far; enlarging the case budget")
+        evaluate(generate(ctx, F, scale=(4 if ctx.tier == "quick" else 2), fixed=False))
+        V.extra["search_rounds"] = rounds[0] - 1
 
     for (clause, site), (c, detail) in sorted(viol.items()):
         def fails(v, clause=clause, site=site):
